@@ -168,6 +168,10 @@ class Concretiser:
                 return str(self.int(v.fields[0]))
             if v.ty == 'Addr':
                 return self.term_string(v.fields[0], 'addr')
+            if v.ty == 'Timestamp':
+                return str(self.int(v.fields[0]))
+            if v.ty == 'BlockInfo':
+                return {'height': self.int(v.fields[0]), 'time': self.json(v.fields[1], ti, serde_rename)}
             if v.ty == 'Coin':
                 return {'denom': self.term_string(v.fields[0], 'denom'), 'amount': self.json(v.fields[1], ti, serde_rename)}
             if v.variant is not None:
